@@ -2,7 +2,8 @@
    Partial by nature (stack depth, wall clock, pest / regex / serde_json internals are runtime
    behaviour observed by the harness); what is proved: *)
 From Coq Require Import List NArith ZArith Bool.
-From JP Require Import Base Ast Eval ValueModel Robust IndexFacts.
+From JP Require Import Base Ast Eval ValueModel Robust IndexFacts Peg Build PegTerm TermCheck.
+From JP.gen Require Import Grammar.
 Import ListNotations.
 Open Scope Z_scope.
 
@@ -12,6 +13,22 @@ Theorem C08_eval_never_errs : forall T (Q : qops T) rx (q : query) (root : T),
   js_path_process Q rx q root <> None.
 Proof. exact eval_never_errs. Qed.
 Print Assumptions C08_eval_never_errs.
+
+(* PARSING TERMINATES, for every input string: the matcher generated from the .pest file of this run (Peg.v over
+   gen/Grammar.v) never runs out of the fuel parse_query gives it, 1000 + 400 x length.  PegTerm.v proves, for ANY
+   grammar, that fuel  length x H + (leftmost height)  suffices when no rule can reach itself without consuming input
+   and every sub-expression has leftmost height at most H: along a chain of nested sub-derivations the position never
+   decreases, between two consumptions the chain is bounded by the leftmost height, and every repetition step
+   consumes.  The rank and nullability tables are proposed by the grammar translator and CHECKED by computation
+   against the generated grammar in TermCheck.v (a left-recursive or otherwise ill-founded grammar fails the check). *)
+Theorem C08_parser_never_out_of_fuel : forall s : str, parse_query s <> POutOfFuel.
+Proof. exact parse_never_out_of_fuel. Qed.
+Print Assumptions C08_parser_never_out_of_fuel.
+
+Theorem C08_matcher_terminates_within_fuel : forall s : str,
+  parse_rule grammar (parse_fuel s) R_main s <> OutOfFuel.
+Proof. exact main_never_out_of_fuel. Qed.
+Print Assumptions C08_matcher_terminates_within_fuel.
 
 (* with start, end and step in the I-JSON range and an array shorter than 2^62, none of the
    additions, subtractions and negations of process_slice leaves the i64 range (no overflow panic
